@@ -220,7 +220,6 @@ func VP_C11_wire() {
 	vp.Cover("end")
 }
 
-
 func vpVarLen(v int) int {
 	n := 1
 	for v >= 128 {
@@ -229,7 +228,6 @@ func vpVarLen(v int) int {
 	}
 	return n
 }
-
 
 // large storages (section and height-map sizes and beyond): the same one-step
 // array property at indices taken from a boundary list - first and last slot
